@@ -7,6 +7,7 @@ import BiscuitModel.Model.Params
 import BiscuitModel.Model.Keys
 import BiscuitModel.Model.Untrusted
 import BiscuitModel.Model.CApi
+import BiscuitModel.Model.TermParser
 import BiscuitModel.Model.WireDec
 open Lean Biscuit Biscuit.Codec
 
@@ -587,6 +588,26 @@ def runParams (j : Json) : P Json := do
 
 end ParamsOp
 
+/-! ### termparse (C14): the term / fact parser model on arbitrary text -/
+section TermParseOp
+open Biscuit.Printer Biscuit.TermParser
+
+def runTermParse (j : Json) : P Json := do
+  let text ← (← field j "text").getStr?
+  let dates ← (← getArr (← field j "dates")).mapM fun d => do
+    match ← getArr d with
+    | [t, v] => pure ((← t.getStr?).toList, ← getNat v)
+    | _ => throw "bad date entry"
+  let dateP : List Char → Option Nat := fun tok => (dates.find? (fun e => e.1 == tok)).map (·.2)
+  match parseFactInner dateP text.toList with
+  | .ok p rest =>
+    pure (Json.mkObj [("r", "ok"), ("rest", Json.num (JsonNumber.fromNat rest.length)), ("name", p.name),
+      ("terms", Json.arr (p.terms.map stermJ).toArray)])
+  | .err => pure (Json.mkObj [("r", "err")])
+  | .fail => pure (Json.mkObj [("r", "fail")])
+
+end TermParseOp
+
 /-! ### keys (C17) -/
 section KeysOp
 open Biscuit.Keys
@@ -869,6 +890,7 @@ def handle (line : String) : String :=
       | "print" => runPrint j
       | "params" => runParams j
       | "keys" => runKeys j
+      | "termparse" => runTermParse j
       | "untrusted" => runUntrusted j
       | "macros" => runMacros j
       | "capi" => runCApi j
